@@ -1,3 +1,5 @@
+//go:build !verifsched
+
 package props
 
 import (
@@ -84,11 +86,11 @@ func refImageValid(img []byte, cert *x509.Certificate) (bool, string) {
 // peBaseLayouts are the unsigned base images used by C02/C03/C13/C15/C19.
 func peBaseLayouts() []pegen.Layout {
 	return []pegen.Layout{
-		{PE32Plus: true, Lfanew: 0x40, Secs: []pegen.Sec{{RawSize: 8}, {RawSize: 13}}},                                     // size mod 8 = 5
-		{PE32Plus: false, Lfanew: 0x48, Secs: []pegen.Sec{{RawSize: 13}, {RawSize: 8, Gap: 4}}, FileOrder: []int{1, 0}},    // PE32, out of order, gap
-		{PE32Plus: true, Lfanew: 0x80, Secs: []pegen.Sec{{RawSize: 8}}, Trailing: 3, HdrSlack: 16},                         // trailing data, mod 8 = 3
-		{PE32Plus: true, Lfanew: 0x40, Secs: []pegen.Sec{{RawSize: 8}, {RawSize: 0}, {RawSize: 8}}},                        // zero-size section, mod 8 = 0
-		{PE32Plus: false, Lfanew: 0x40, Secs: nil, Trailing: 7},                                                            // no sections, mod 8 = 7
+		{PE32Plus: true, Lfanew: 0x40, Secs: []pegen.Sec{{RawSize: 8}, {RawSize: 13}}},                                       // size mod 8 = 5
+		{PE32Plus: false, Lfanew: 0x48, Secs: []pegen.Sec{{RawSize: 13}, {RawSize: 8, Gap: 4}}, FileOrder: []int{1, 0}},      // PE32, out of order, gap
+		{PE32Plus: true, Lfanew: 0x80, Secs: []pegen.Sec{{RawSize: 8}}, Trailing: 3, HdrSlack: 16},                           // trailing data, mod 8 = 3
+		{PE32Plus: true, Lfanew: 0x40, Secs: []pegen.Sec{{RawSize: 8}, {RawSize: 0}, {RawSize: 8}}},                          // zero-size section, mod 8 = 0
+		{PE32Plus: false, Lfanew: 0x40, Secs: nil, Trailing: 7},                                                              // no sections, mod 8 = 7
 		{PE32Plus: true, Lfanew: 0x48, Secs: []pegen.Sec{{RawSize: 13}, {RawSize: 13}}, FileOrder: []int{1, 0}, Trailing: 1}, // mod 8 = 1
 	}
 }
